@@ -4,4 +4,10 @@ PROPS = {
                 assumptions=["jax.random.choice(key, a, (n,), replace=False, p) returns a permutation of a (checked on every observed reshuffle)",
                              "lax.dynamic_slice clamps its start index into [0, n - size]",
                              "equinox tree_at replaces exactly the selected leaves"]),
+    "C14": dict(gen=["G_datagen"], runners=["R_C14"], harness="c14",
+                assumptions=["jnp.repeat / jnp.tile / jnp.concatenate have their documented numpy semantics (exercised by the correspondence)",
+                             "the three sub-batches drawn separately from the same immutable generator state are the ones get_batch draws"]),
+    "C15": dict(gen=["G_datagen"], runners=["R_C15"], harness="c15",
+                assumptions=["jnp.take(table, idx, axis=0) gathers rows; tree_map applies it to every observed parameter",
+                             "the index vector is shuffled by the cursor machine of C09 (same regenerated definitions)"]),
 }
